@@ -16,12 +16,17 @@ def main(tier, seed, replay=None):
     for i in range(n):
         S = rng.randint(1, 6)
         par = i % 3 == 2
+        many = i % 10 == 5
+        if many:
+            S = rng.choice([9, 11, 13, 17])
+            par = i % 20 == 5
         big = i % 5 == 3
         if big:
             S = max(S, 2)
-        c = gen_problem(rng, quant=(8 if i % 6 else None), S=S, ctor=("mrhs_parallel" if par else "mrhs"),
-                        eps=(rng.choice([1e-3, 1e-2, -1e-3]) if big else None))
-        if (c["meta"]["N"] >= 17 or i % 6 == 0) and S > 3:
+        c = gen_problem(rng, quant=(8 if i % 6 or many else None), S=S, ctor=("mrhs_parallel" if par else "mrhs"),
+                        eps=(rng.choice([1e-3, 1e-2, -1e-3]) if big else None),
+                        **({"family": rng.choice(["exp1l", "gaussc", "rat2"]), "N": rng.randint(4, 6)} if many else {}))
+        if (c["meta"]["N"] >= 17 or i % 6 == 0) and S > 3 and not many:
             # long problems / full-precision model values with many columns are expensive in exact arithmetic (Qc normalises
             # with a gcd written in Gallina: minutes per state): keep three columns
             S = 3
